@@ -393,3 +393,202 @@ class TrackingOracle(Bounded):
 
     def replay(self, rec):
         return run_tracking(rec["inputs"])
+
+
+# =====================================================================================================================
+# match_tracks (method="overlap"): verified as a whole - inner loop by a filter invariant, outer loop by a loop-body contract
+from .io import Sym, _BodyOnce   # noqa: E402  (generic recording objects, loop-body specs)
+
+KEY_MO = f"{TR}:DropletTrackList.from_emulsion_time_course.<match_tracks>#0"
+B = z3.BoolSort()
+OVL = z3.Function("overlaps_last_of_track", I, I, B)       # (alive track k, droplet i) at the time droplet i is processed
+CNTF = z3.Function("overlapping_among_first", I, I, I)     # (j, i): number of k < j with OVL(k, i)
+ELEMF = z3.Function("pth_overlapping_track", I, I, I)      # (p, i): index of the p-th overlapping alive track
+
+
+def filter_facts(m, i, at):
+    """facts about the count / enumeration of {k < m : OVL(k, i)} (definitions of a filter; their inductive consequences are trusted and
+    listed: monotone count, enumeration in increasing order).  Instantiated at the terms in `at`."""
+    out = [CNTF(0, i) == 0,
+           # enumeration: the p-th overlapping track (here p = 0, the only entry the code reads) is an alive, overlapping track
+           z3.Implies(CNTF(m, i) >= 1, z3.And(ELEMF(0, i) >= 0, ELEMF(0, i) < m, OVL(ELEMF(0, i), i)))]
+    for j in at:
+        out += [CNTF(j + 1, i) == CNTF(j, i) + z3.If(OVL(j, i), 1, 0), CNTF(j, i) >= 0,
+                z3.Implies(z3.And(j >= 0, j <= m), CNTF(j, i) <= CNTF(m, i)),
+                z3.Implies(z3.And(j >= 0, j < m), CNTF(j + 1, i) <= CNTF(m, i)),
+                z3.Implies(z3.And(j >= 0, OVL(j, i)), ELEMF(CNTF(j, i), i) == j)]
+    return out
+
+
+class SymList:
+    """python list built by appends inside a cut loop: length term + element function"""
+
+    def __init__(self, length, at):
+        self.length, self.at = length, at
+
+    def sym_len(self, run):
+        return self.length
+
+    def sym_getitem(self, run, idx):
+        i = to_z3(idx)
+        run.oblige("list index in range (overlaps)", z3.And(i >= 0, i < to_z3(self.length)), kind="implicit")
+        return self.at(i)
+
+
+class OverlapInner(LoopSpec):
+    """for track in tracks_alive: `overlaps` holds exactly the alive tracks seen so far whose last droplet overlaps the current droplet"""
+    force = True
+
+    def havoc(self, run, env):
+        g = run.ghost["mo"]
+        i = g["cur"]
+        g["ovl_len"] = run.fresh_int("n_overlaps")
+        env["overlaps"] = SymList(g["ovl_len"], lambda p: g["tracks"].at(ELEMF(to_z3(p), i)))
+
+    def invariant(self, run, env, j, seq):
+        g = run.ghost["mo"]
+        i = g["cur"]
+        ov = env["overlaps"]
+        for f in filter_facts(g["m"], i, [j, j - 1]):
+            run.define(f, "filter count / enumeration facts")
+        if isinstance(ov, list):
+            if len(ov) == 0:
+                yield ("`overlaps` has one entry per overlapping alive track seen so far", CNTF(j, i) == 0)
+            else:
+                # appended in this step: the list of the previous state plus the current track
+                yield ("`overlaps` is extended by a python list append only", z3.BoolVal(False))
+            return
+        if isinstance(ov, SymList):
+            yield ("`overlaps` has one entry per overlapping alive track seen so far", to_z3(ov.length) == CNTF(j, i))
+            return
+        yield ("`overlaps` is a list", z3.BoolVal(False))
+
+    def before_body(self, run, env, j, seq):
+        g = run.ghost["mo"]
+        g["ovl_calls"].clear()
+        ov = env["overlaps"]
+        # give the symbolic list an append that records the appended track
+        g["inner_app"] = []
+        if isinstance(ov, SymList):
+            L0 = ov.length
+
+            class Grow(SymList):
+                def sym_getattr(self_inner, run2, attr):
+                    if attr == "append":
+                        def app(run3, a, k):
+                            g["inner_app"].append(a[0])
+                            self_inner.length = to_z3(self_inner.length) + 1
+                        return SNative(app, "list.append")
+                    from pyvc.engine import _MISSING
+                    return _MISSING
+            env["overlaps"] = Grow(L0, ov.at)
+
+    def after_body(self, run, env, j, seq):
+        g = run.ghost["mo"]
+        i = g["cur"]
+        apps = g["inner_app"]
+        tr = seq.at(j)
+        run.oblige("the overlap test is made once per alive track, with the grid's (periodic) metric",
+                   z3.BoolVal(len(g["ovl_calls"]) == 1 and g["ovl_calls"][0][1] is g["grid"]), kind="ensures", assume_after=False)
+        run.oblige("the current track is appended to `overlaps` exactly when its last droplet overlaps the current droplet (with the grid's metric)",
+                   z3.And(z3.BoolVal(len(apps) <= 1 and all(a is tr or getattr(a, "term", None) is not None and z3.eq(a.term, tr.term) for a in apps)),
+                          z3.BoolVal(len(apps) == 1) == OVL(j, i)), kind="ensures", assume_after=False)
+
+
+class OverlapOuter(_BodyOnce):
+    def before_body(self, run, env, i, seq):
+        g = run.ghost["mo"]
+        g["cur"] = i
+        g["appends"].clear()
+        g["new_tracks"].clear()
+        g["ovl_calls"].clear()
+
+    def after_body(self, run, env, i, seq):
+        g = run.ghost["mo"]
+        m = g["m"]
+        ap, nt = g["appends"], g["new_tracks"]
+        d = seq.at(i)
+        for f in filter_facts(m, i, [m, z3.Int("sk_track")]):
+            run.define(f, "filter count / enumeration facts")
+        run.oblige("droplet i is placed exactly once: appended to one track or started as one new track", z3.BoolVal(len(ap) + len(nt) == 1),
+                   kind="ensures", assume_after=False)
+        n1 = g["ovl_len"] if "ovl_len" in g else z3.IntVal(0)
+        if len(ap) == 1 and not nt:
+            tr, args, kw = ap[0]
+            ok = (len(args) == 1 and getattr(args[0], "term", None) is not None and z3.eq(args[0].term, d.term) and set(kw) == {"time"} and kw["time"] is g["time"])
+            run.oblige("the droplet appended is droplet i itself, stamped with the frame's time", z3.BoolVal(bool(ok)), kind="ensures", assume_after=False)
+            k = z3.Int("sk_track")
+            kstar = tr.index
+            run.oblige("the extended track is an alive track whose last droplet overlaps droplet i ...",
+                       z3.And(kstar >= 0, kstar < m, OVL(kstar, i)), kind="ensures", assume_after=False)
+            run.oblige("... and it is the only such track (identity is followed only when it is unambiguous)",
+                       z3.Implies(z3.And(k >= 0, k < m, OVL(k, i)), k == kstar), kind="ensures", assume_after=False)
+        elif len(nt) == 1 and not ap:
+            args, kw = nt[0]
+            dl, tl = kw.get("droplets"), kw.get("times")
+            ok = (not args and isinstance(dl, list) and len(dl) == 1 and getattr(dl[0], "term", None) is not None and z3.eq(dl[0].term, d.term)
+                  and isinstance(tl, list) and len(tl) == 1 and tl[0] is g["time"] and set(kw) == {"droplets", "times"})
+            run.oblige("a new track starts with exactly droplet i and the frame's time, and is added to the track list", z3.And(z3.BoolVal(bool(ok)), z3.BoolVal(g["added_to_tracks"] == 1)),
+                       kind="ensures", assume_after=False)
+            run.oblige("a new track is started only when no alive track or several alive tracks overlap droplet i", CNTF(m, i) != 1, kind="ensures", assume_after=False)
+        for (kk, gr) in g["ovl_calls"]:
+            if gr is not g["grid"]:
+                run.oblige("the overlap test uses the grid's (periodic) metric", z3.BoolVal(False), kind="ensures", assume_after=False)
+        g["added_to_tracks"] = 0
+
+
+LOOPS_T = __import__("pyvc.contract", fromlist=["LOOPS"]).LOOPS
+LOOPS_T[(KEY_MO, 0)] = OverlapOuter()
+LOOPS_T[(KEY_MO, 1)] = OverlapInner()
+
+
+@register
+class MatchOverlap(Contract):
+    key = KEY_MO
+    modular = False
+
+    def cases(self):
+        return [dict(grid=g) for g in ("none", "given")]
+
+    def setup(self, run, case):
+        n, m = run.input_int("n_droplets"), run.input_int("n_alive")
+        run.assume(z3.And(n >= 0, m >= 0))
+        DROP, TRK = z3.Function("droplet_of_frame", I, I), z3.Function("alive_track", I, I)
+        g = dict(m=m, n=n, appends=[], new_tracks=[], ovl_calls=[], added_to_tracks=0, cur=z3.IntVal(0))
+        grid = SOpaque("grid") if case["grid"] == "given" else None
+        g["grid"] = grid
+        time = run.input_real("time")
+        g["time"] = time
+
+        def mk_track(k):
+            k = to_z3(k)
+
+            def last(run2):
+                def ov(run3, a, kw):
+                    g["ovl_calls"].append((k, kw.get("grid", a[1] if len(a) > 1 else None)))
+                    x = a[0]
+                    return OVL(k, g["cur"]) if getattr(x, "term", None) is not None else (_ for _ in ()).throw(Undecided("overlaps with something else"))
+                return Sym(f"last[{k}]", methods={"overlaps": ov})
+            last._lazy = True
+            t = Sym(f"track[{k}]", term=TRK(k), attrs={"last": last},
+                    methods={"append": lambda run2, a, kw: g["appends"].append((t, list(a), dict(kw)))})
+            t.index = k
+            return t
+        tracks = SSeq(m, mk_track, "tracks_alive", "list")
+        g["tracks"] = tracks
+        em = SSeq(n, lambda i: Sym(f"droplet[{i}]", term=DROP(to_z3(i))), "emulsion", "list")
+        run.ghost["mo"] = g
+        models.CONSTRUCTORS["DropletTrack"] = lambda eng, run2, cls, args, kw: (g["new_tracks"].append((list(args), dict(kw))) or SObj(cls, {"_new": True}))
+        all_tracks = Sym("tracks", methods={"append": lambda run2, a, kw: g.__setitem__("added_to_tracks", g["added_to_tracks"] + (1 if isinstance(a[0], SObj) and a[0].fields.get("_new") else 100))})
+        self.ctx = (run, g, all_tracks, grid)
+        return dict(emulsion=em, tracks_alive=tracks, time=time)
+
+    def closure(self, engine, run, fi, a, case):
+        run_, g, all_tracks, grid = self.ctx
+        return Frame(fi.parent, {"tracks": all_tracks, "grid": grid}, None, source.load_module(fi.module))
+
+    def call(self, engine, run, fi, a, case):
+        return engine.call_function(run, fi, [a["emulsion"], a["tracks_alive"]], {"time": a["time"]}, closure=self.closure(engine, run, fi, a, case))
+
+    def post(self, a, ret, case):
+        return [("returns None", ret is None)]
